@@ -29,6 +29,11 @@ Everything here is *exact* over `Rat`.  Designs are the indices `0 … K-1`; the
   is solved exactly (`solveLin`, Gaussian elimination over `Rat`) and the solution is *checked*
   (`Σ y = x − c`) before it is used; `none` if `Σ` is singular or the shapes are wrong.
 
+## Auer
+
+* `errWithin c β μ`, `widthsPos β`, `sltB a b`, `ones m` — the premise `‖c − μ‖_∞ ≤ min_d β_d`, positive
+  widths, "strictly smaller in every coordinate", and the all-ones `α` of the componentwise order.
+
 ## Runs
 
 * `pavebaRun`, `vogpRun`, `auerRun` — iterate the set transitions of `Steps.lean` from
@@ -148,6 +153,23 @@ def inEll (c : Vec) (Sg : Mat) (a : Rat) (x : Vec) : Option Bool :=
     | some y =>
       if y.length = m ∧ matVec Sg y = d then some (decide (0 ≤ a) && decide (dot d y ≤ a * a))
       else none
+
+/-! ## Auer: the premise and the order in coordinates -/
+
+/-- the all-ones vector (Auer's `α` for the componentwise order) -/
+def ones (m : Nat) : Vec := List.replicate m 1
+
+/-- strictly smaller in every coordinate (what an elimination certificate of Auer gives) -/
+def sltB (a b : Vec) : Bool := (List.zipWith (fun x y => decide (x < y)) a b).all id
+
+/-- `‖c − μ‖_∞ ≤ min_d β_d`: every coordinate error is within *every* entry of the width row
+(for a row with equal entries — `use_empirical_beta = False` — this is `μ ∈ [c − β, c + β]`) -/
+def errWithin (c beta mu : Vec) : Bool :=
+  (List.zipWith (fun x y => x - y) c mu).all fun e =>
+    beta.all fun b => decide (-b ≤ e) && decide (e ≤ b)
+
+/-- all widths positive -/
+def widthsPos (beta : Vec) : Bool := beta.all fun b => decide (0 < b)
 
 /-! ## Runs -/
 
